@@ -1,8 +1,8 @@
 #!/verif/.venv/bin/python
 # Replay of a solver counterexample against the unmodified code (no shims).
-# property=C15 kernel=l1 label=c15:disable_buffer
+# property=C15 kernel=drift label=k4:modify_compensates_drift
 import sys
 sys.path[:0] = ['/repo' + "/pulser-core", '/repo' + "/pulser-simulation", "/verif"]
 from symx.replay import replay
-sys.exit(replay(check='checks.c15', kernel='l1', shape={'own': {'clock': 1, 'local': False, 'slots': [], 'mod': True, 'pj': 'derived', 'det_off': 0.0, 'eom': {'custom_buffer': True, 'blocks': [(0, None)]}}, 'op': ['disable_eom'], 'maxseq': True, 'nbarriers': 1},
-                assignment={'max_sequence_duration': 4, 'own.min_duration': 3, 'own.tr': 2, 'own.eom_buffer': 2, 'own.eom_tr': 1}, label='c15:disable_buffer'))
+sys.exit(replay(check='checks.c15', kernel='drift', shape={'cfg': {'lim': 'R', 'ctrl': ['B']}, 'program': [['enable', 2.0, 0.0, -1.0], ['modify', 1.0, 0.0, 3.0], ['eom_pulse', 0.0], ['disable']], 'custom_buffer': None, 'kmax': 12},
+                assignment={'d2/k': 2, 'buf#1.start': 0, 'buf#1.end': 1, 'buf#2.start': 0, 'buf#2.end': 1}, label='k4:modify_compensates_drift'))
